@@ -181,11 +181,13 @@ pub fn worlds(a: &Alphabet) -> Vec<World> {
         out.push(World {
             obst: vec![ball(i)],
             only_inside: None,
+            sballs: vec![],
         });
     }
     out.push(World {
         obst: vec![ball(3), ball(a.states.len() - 1)],
         only_inside: None,
+            sballs: vec![],
     });
     // a wall: ball around the midpoint of start and target
     let mid = crate::gen::ref_interpolate(&a.space, &a.states[0], &a.states[2], 0.5);
@@ -193,6 +195,7 @@ pub fn worlds(a: &Alphabet) -> Vec<World> {
     out.push(World {
         obst: vec![Obst::Ball { c: mid, r: 0.2 * d }],
         only_inside: None,
+            sballs: vec![],
     });
     out
 }
